@@ -715,6 +715,15 @@ def _freshen(e: Expr) -> Expr:
 @prim("numpy.concatenate", "numpy.vstack", "numpy.hstack")
 def p_concat(I, n, pos, kw):
     v = pos[0]
+    tgt = I.log[-1]["target"] if I.log else ""
+    axis = kw.get("axis")
+    axis0 = tgt == "numpy.vstack" or (tgt == "numpy.concatenate" and (axis is None or (isinstance(axis, Sc) and axis.e == sym.ZERO)))
+    if isinstance(v, Seq) and axis0 and len(v.items) >= 2:
+        parts = [arrays.to_arr(x) if not isinstance(x, Arr) else x for x in v.items]
+        if all(isinstance(x, Arr) and x.ndim == parts[0].ndim and x.ndim >= 1 and all(
+                a[0].same_size(b[0]) for a, b in zip(x.axes[1:], parts[0].axes[1:])) for x in parts):
+            from .values import VStack
+            return VStack([x.renamed() for x in parts])
     if isinstance(v, Seq):
         return Bag(_freshen(sym.Choice([generic_elem(x) for x in v.items])), None, False, None)
     return Bag(_freshen(generic_elem(v)), None, False, None)
@@ -726,6 +735,11 @@ def p_dot(I, n, pos, kw):
 
 
 def dot(I, n, a: Val, b: Val) -> Val:
+    from .values import VStack
+    if isinstance(a, VStack):
+        outs = [dot(I, n, x, b) for x in a.ordered]
+        if all(isinstance(x, Arr) for x in outs):
+            return VStack(outs)
     A = arrays.to_arr(a) if not isinstance(a, Arr) else a
     B = arrays.to_arr(b) if not isinstance(b, Arr) else b
     if isinstance(A, Sc) or isinstance(B, Sc):
